@@ -1,8 +1,12 @@
 package main
 
 import (
+	"bytes"
 	"fmt"
+	"github.com/keybase/saltpack"
+	"io"
 	"strconv"
+	"strings"
 )
 
 type producer struct {
@@ -104,6 +108,15 @@ func genCrossMode(h *H, rounds int) {
 					}
 					h.tag("gate:" + p.name + "->" + cons)
 					h.Run(consumerCase(cons, vd, p, extra))
+					// the same message through the armored and classify entry points of that consumer: the
+					// gate (accept / reject) must be the one of the binary entry point
+					accept := "0"
+					if okMode && okVer {
+						accept = "1"
+					}
+					h.tag("gate-armored:" + p.name + "->" + cons)
+					h.Run(Case{Op: "gate_armored", A: map[string]string{"cons": cons, "vd": vd, "wire": hx(p.wire), "msg": hx(p.msg), "prod": p.name,
+						"keys": keysOf(p), "signers": signersOf(p), "accept": accept}})
 				}
 			}
 		}
@@ -214,6 +227,107 @@ func genSealVersions(h *H) {
 }
 
 func init() {
+	// the armored forms (and the classify-and-decrypt entry point) of each consumer apply the same
+	// gate as the binary form: same accept/reject for every (producer, consumer, validator) triple
+	evaluators["gate_armored"] = evaluator{run: func(h *H, c Case) (fs []Failure) {
+		wire, msg := unhx(c.A["wire"]), unhx(c.A["msg"])
+		vd := parseValidator(c.A["vd"])
+		ring := makeRing(c.A["keys"], "all", c.A["signers"])
+		sring := ring
+		at := map[string]saltpack.MessageType{"enc": saltpack.MessageTypeEncryption, "sc": saltpack.MessageTypeEncryption,
+			"att": saltpack.MessageTypeAttachedSignature, "det": saltpack.MessageTypeDetachedSignature}
+		// armor under the frame type the consumer expects, so that only the header gate decides
+		var results []string
+		var names []string
+		add := func(name string, f func(txt string) error) {
+			txt, err := saltpack.Armor62Seal(wire, at[c.A["cons"]], "")
+			if err != nil {
+				return
+			}
+			var e error
+			if pe := guard(func() error { e = f(txt); return nil }); pe != nil {
+				e = pe
+			}
+			names = append(names, name)
+			if e == nil {
+				results = append(results, "1")
+			} else {
+				results = append(results, "0")
+			}
+		}
+		switch c.A["cons"] {
+		case "enc":
+			add("Dearmor62DecryptOpen", func(t string) error { _, _, _, e := saltpack.Dearmor62DecryptOpen(vd, t, ring); return e })
+			add("NewDearmor62DecryptStream", func(t string) error {
+				_, r, _, e := saltpack.NewDearmor62DecryptStream(vd, strings.NewReader(t), ring)
+				if e != nil {
+					return e
+				}
+				_, e = io.ReadAll(r)
+				return e
+			})
+			if c.A["vd"] == "any" {
+				add("ClassifyEncryptedStreamAndMakeDecoder", func(t string) error {
+					r, mt, _, _, _, _, _, e := saltpack.ClassifyEncryptedStreamAndMakeDecoder(strings.NewReader(t), ring, nil)
+					if e != nil {
+						return e
+					}
+					if mt != saltpack.MessageTypeEncryption {
+						return fmt.Errorf("classified as %v", mt)
+					}
+					_, e = io.ReadAll(r)
+					return e
+				})
+			}
+		case "sc":
+			add("Dearmor62SigncryptOpen", func(t string) error { _, _, _, e := saltpack.Dearmor62SigncryptOpen(t, ring, nil); return e })
+			add("NewDearmor62SigncryptOpenStream", func(t string) error {
+				_, r, _, e := saltpack.NewDearmor62SigncryptOpenStream(strings.NewReader(t), ring, nil)
+				if e != nil {
+					return e
+				}
+				_, e = io.ReadAll(r)
+				return e
+			})
+			add("ClassifyEncryptedStreamAndMakeDecoder", func(t string) error {
+				r, mt, _, _, _, _, _, e := saltpack.ClassifyEncryptedStreamAndMakeDecoder(strings.NewReader(t), ring, nil)
+				if e != nil {
+					return e
+				}
+				if mt != saltpack.MessageTypeSigncryption {
+					return fmt.Errorf("classified as %v", mt)
+				}
+				_, e = io.ReadAll(r)
+				return e
+			})
+		case "att":
+			add("Dearmor62Verify", func(t string) error { _, _, _, e := saltpack.Dearmor62Verify(vd, t, sring); return e })
+			add("NewDearmor62VerifyStream", func(t string) error {
+				_, r, _, e := saltpack.NewDearmor62VerifyStream(vd, strings.NewReader(t), sring)
+				if e != nil {
+					return e
+				}
+				_, e = io.ReadAll(r)
+				return e
+			})
+		default:
+			add("Dearmor62VerifyDetached", func(t string) error { _, _, e := saltpack.Dearmor62VerifyDetached(vd, msg, t, sring); return e })
+			add("Dearmor62VerifyDetachedReader", func(t string) error {
+				_, _, e := saltpack.Dearmor62VerifyDetachedReader(vd, bytes.NewReader(msg), t, sring)
+				return e
+			})
+		}
+		for i, r := range results {
+			if r != c.A["accept"] {
+				what := "REJECTED a message the gate admits"
+				if r == "1" {
+					what = "ACCEPTED a message the gate refuses"
+				}
+				fs = append(fs, Failure{Kind: "oracle", Key: "armored-entry-point-gate-differs", Desc: fmt.Sprintf("%s %s: a %s message with validator %s (binary entry point: accept=%s)", names[i], what, c.A["prod"], c.A["vd"], c.A["accept"])})
+			}
+		}
+		return
+	}}
 	campaigns["C17"] = campaign{
 		rule: "cases: (1) every Version in {0..3}x{0..2} plus odd values handed to every sending entry point (Sign, SignDetached, Seal; one-shot and streaming): must return ErrBadVersion, emit nothing, not panic; (2) every library-produced message (encryption V1/V2, signcryption, attached V1/V2, detached V1/V2) fed to every receiving entry point with every shipped validator (any known major, single 1.0, single 2.0): accepted exactly when mode and version match; (3) messages from the reference sender whose header lies about the format name, the major version or the mode while all keys, MACs and signatures are computed consistently with the lying header: must be rejected. Model and implementation compared on every case.",
 		gen: func(h *H) {
